@@ -26,6 +26,8 @@ def check(chk, fx):
     from . import c17
     c17.symbol_lookup(chk, fx)
     tix.report(chk, fx)
+    from .. import stdexrules
+    stdexrules.bitset(chk, fx)       # character classes / item and FIRST sets live in cbitset
     idxrule.report(chk, fx, lambda q: q.startswith(P + "state_analyzer") or q.startswith(P + "analyze_") or
                    q.startswith(P + "make_symbol") or q.startswith(P + "make_nterm_rule_slices") or
                    q.startswith(P + "make_situation") or q.startswith(P + "symbol"),
